@@ -346,3 +346,88 @@ class Model:
                         out.append((f, t[1], n))
                         break
         return out
+
+
+# ------------------------------------------------------------------------------------- module-level registries
+def module_dict_expr(ix: Index, mod, name: str):
+    """The effective initialiser of a module-level dict `name`: the entries of its literal plus the entries registered at
+    import time by (a) module-level statements `name[K] = V` and (b) the registry-decorator idiom
+
+        def deco(K):                      @deco(SomeKey)
+            def register(func):           def some_function(...): ...
+                name[K] = func
+                return func
+            return register
+
+    Returns an ast.Dict (keys / values are the original expression nodes; a decorated function is an ast.Name), or the
+    original initialiser when it is not a dict literal / dict() call.  Other writers of the table (inside functions
+    that run later) are not import-time registrations and are left to the rules that look for run-time mutation."""
+    init = mod.assigns.get(name)
+    if isinstance(init, ast.Call) and isinstance(init.func, ast.Name) and init.func.id == "dict" and not init.args \
+            and not init.keywords:
+        init = ast.Dict(keys=[], values=[])
+    if not isinstance(init, ast.Dict):
+        return init
+    keys, values = list(init.keys), list(init.values)
+    for st in mod.tree.body:
+        if isinstance(st, ast.Assign) and len(st.targets) == 1 and isinstance(st.targets[0], ast.Subscript) \
+                and isinstance(st.targets[0].value, ast.Name) and st.targets[0].value.id == name:
+            keys.append(st.targets[0].slice)
+            values.append(st.value)
+    # registry decorators defined in this module
+    factories = {}
+    for fn in mod.tree.body:
+        if not isinstance(fn, ast.FunctionDef) or len(fn.args.args) != 1:
+            continue
+        inner = [s for s in fn.body if isinstance(s, ast.FunctionDef)]
+        rets = [s for s in fn.body if isinstance(s, ast.Return)]
+        if len(inner) != 1 or len(rets) != 1 or not isinstance(rets[0].value, ast.Name) or \
+                rets[0].value.id != inner[0].name or len(inner[0].args.args) != 1:
+            continue
+        kparam, fparam = fn.args.args[0].arg, inner[0].args.args[0].arg
+        body = [s for s in inner[0].body if not (isinstance(s, ast.Expr) and isinstance(s.value, ast.Constant))]
+        if len(body) == 2 and isinstance(body[0], ast.Assign) and len(body[0].targets) == 1 and \
+                isinstance(body[0].targets[0], ast.Subscript) and isinstance(body[0].targets[0].value, ast.Name) and \
+                body[0].targets[0].value.id == name and isinstance(body[0].targets[0].slice, ast.Name) and \
+                body[0].targets[0].slice.id == kparam and isinstance(body[0].value, ast.Name) and \
+                body[0].value.id == fparam and isinstance(body[1], ast.Return) and \
+                isinstance(body[1].value, ast.Name) and body[1].value.id == fparam:
+            factories[fn.name] = True
+    if factories:
+        for fn in mod.tree.body:
+            if isinstance(fn, ast.FunctionDef):
+                for d in fn.decorator_list:
+                    if isinstance(d, ast.Call) and isinstance(d.func, ast.Name) and d.func.id in factories \
+                            and len(d.args) == 1 and not d.keywords:
+                        keys.append(d.args[0])
+                        values.append(ast.copy_location(ast.Name(id=fn.name, ctx=ast.Load()), fn))
+    if len(keys) == len(init.keys):
+        return init
+    out = ast.Dict(keys=keys, values=values)
+    ast.copy_location(out, init)
+    ast.fix_missing_locations(out)
+    return out
+
+
+def import_time_registrars(ix: Index, mod, name: str) -> set:
+    """Names of the (nested) functions of the registry-decorator idiom that write `name` at import time only."""
+    out = set()
+    eff = module_dict_expr(ix, mod, name)
+    if eff is mod.assigns.get(name):
+        return out
+    for fn in mod.tree.body:
+        if isinstance(fn, ast.FunctionDef):
+            for inner in fn.body:
+                if isinstance(inner, ast.FunctionDef) and any(
+                        isinstance(n, ast.Subscript) and isinstance(n.value, ast.Name) and n.value.id == name
+                        and isinstance(n.ctx, ast.Store) for n in ast.walk(inner)):
+                    # only used as a decorator at module level?
+                    used_elsewhere = False
+                    for f in ix.functions.values():
+                        if f.module is mod:
+                            for n in walk_local(f.node):
+                                if isinstance(n, ast.Call) and isinstance(n.func, ast.Name) and n.func.id == fn.name:
+                                    used_elsewhere = True
+                    if not used_elsewhere:
+                        out.add(f"{fn.name}.<locals>.{inner.name}")
+    return out
